@@ -80,8 +80,29 @@ template <glm::qualifier Q, int L> static void reg_bits() {
 	add_op(nmv<float, Q, L>("uintBitsToFloat"), spec("uI#", 'f', L), spec("f#", 'f', L), 'B', 'B', 0, FN { ST(out, glm::uintBitsToFloat(VL<L, unsigned, Q>::ld(in))); });
 }
 
+// the bit casts after a history of component stores (construct, modify components through operator[] in a loop whose trip count is
+// only known at run time, convert, use ONE lane): a cast implemented by type punning instead of a copy lets an optimising compiler
+// reorder the read before the stores; one lane per instance because using all lanes keeps the object live in memory
+template <glm::qualifier Q, int LANE> __attribute__((noinline)) static unsigned hist_f2u(float a, unsigned k, int which) {
+	glm::vec<4, float, Q> v(a, a + 1.0f, a + 2.0f, a + 3.0f);
+	for (unsigned i = 0; i < k; ++i) v[i & 3] += static_cast<float>(i);
+	return which ? glm::floatBitsToUint(v)[LANE] : (unsigned)glm::floatBitsToInt(v)[LANE];
+}
+template <glm::qualifier Q, int LANE> __attribute__((noinline)) static float hist_u2f(unsigned a, unsigned k, int which) {
+	glm::vec<4, unsigned, Q> v(a, a + 1u, a + 2u, a + 3u);
+	for (unsigned i = 0; i < k; ++i) v[i & 3] += i * 2654435761u;
+	return which ? glm::uintBitsToFloat(v)[LANE] : glm::intBitsToFloat(glm::vec<4, int, Q>(v))[LANE];
+}
+template <glm::qualifier Q> static void reg_bits_history() {
+	add_op(nmv<float, Q, 4>("floatBitsToInt_after_stores"), "fF1 iW1", "u4", 'B', 'B', 0, FN { float a = in[0].f; unsigned k = (unsigned)in[1].i; ST1(out, hist_f2u<Q, 0>(a, k, 0)); ST1(out + 1, hist_f2u<Q, 1>(a, k, 0)); ST1(out + 2, hist_f2u<Q, 2>(a, k, 0)); ST1(out + 3, hist_f2u<Q, 3>(a, k, 0)); });
+	add_op(nmv<float, Q, 4>("floatBitsToUint_after_stores"), "fF1 iW1", "u4", 'B', 'B', 0, FN { float a = in[0].f; unsigned k = (unsigned)in[1].i; ST1(out, hist_f2u<Q, 0>(a, k, 1)); ST1(out + 1, hist_f2u<Q, 1>(a, k, 1)); ST1(out + 2, hist_f2u<Q, 2>(a, k, 1)); ST1(out + 3, hist_f2u<Q, 3>(a, k, 1)); });
+	add_op(nmv<float, Q, 4>("uintBitsToFloat_after_stores"), "uI1 iW1", "f4", 'B', 'B', 0, FN { unsigned a = in[0].u; unsigned k = (unsigned)in[1].i; ST1(out, hist_u2f<Q, 0>(a, k, 1)); ST1(out + 1, hist_u2f<Q, 1>(a, k, 1)); ST1(out + 2, hist_u2f<Q, 2>(a, k, 1)); ST1(out + 3, hist_u2f<Q, 3>(a, k, 1)); });
+	add_op(nmv<float, Q, 4>("intBitsToFloat_after_stores"), "uI1 iW1", "f4", 'B', 'B', 0, FN { unsigned a = in[0].u; unsigned k = (unsigned)in[1].i; ST1(out, hist_u2f<Q, 0>(a, k, 0)); ST1(out + 1, hist_u2f<Q, 1>(a, k, 0)); ST1(out + 2, hist_u2f<Q, 2>(a, k, 0)); ST1(out + 3, hist_u2f<Q, 3>(a, k, 0)); });
+}
+
 template <glm::qualifier Q> static void reg_q() {
 #if OPS_PART == 0
+	reg_bits_history<Q>();
 	reg_common<float, Q, 1>(); reg_common<float, Q, 2>(); reg_common<float, Q, 3>(); reg_common<float, Q, 4>();
 	reg_bits<Q, 1>(); reg_bits<Q, 2>(); reg_bits<Q, 3>(); reg_bits<Q, 4>();
 #else
